@@ -205,7 +205,8 @@ SubTilingOK(parent, off, t) ==
 
 \* ================================================================ state machines (give TLC the bounded space)
 \* A behaviour picks a size ("pick", nothing computed yet), builds the tiling of the full image ("full",
-\* StudyTiling.__init__) and then any one sub-image tiling of it ("sub", compute_for_subimage).
+\* StudyTiling.__init__), derives any sub-image tiling of it ("sub", compute_for_subimage), returns to the
+\* parent, derives another one, and so on.
 VARIABLE c
 Built == c.kind # "pick"
 \* ---- 2-D: every image of MaxW x MaxH, then every sub-image of it
@@ -216,7 +217,12 @@ SubImage == /\ c.kind = "full"
             /\ \E sw \in 1..c.t.x.len, sh \in 1..c.t.y.len :
                  \E ix \in 0..(c.t.x.len - sw), iy \in 0..(c.t.y.len - sh) :
                     c' = [kind |-> "sub", t |-> SubTiling(c.t, ix, iy, sw, sh), parent |-> c.t, off |-> <<ix, iy>>]
-SpecImage == InitImage /\ [][NewImage \/ SubImage]_c
+\* the caller goes back to the parent tiling object and may derive another sub-image from it: a tiling's count,
+\* rectangles and slots are functions of its own geometry alone, whatever was asked of the parent (or of other
+\* sub-tilings) before - so the invariants below constrain every history full -> sub -> full -> sub ...
+BackToImage == /\ c.kind = "sub"
+               /\ c' = [kind |-> "full", t |-> c.parent, parent |-> c.parent, off |-> <<0, 0>>]
+SpecImage == InitImage /\ [][NewImage \/ SubImage \/ BackToImage]_c
 ImgMinimal == c.kind = "full" => P2Minimal(c.t.x.len, c.t.y.len)
 ImgCentred == c.kind = "full" => /\ Centred(c.t.p2, c.t.x.len) /\ Centred(c.t.p2, c.t.y.len)
                                  /\ c.t.x.g0 = Centre(c.t.p2, c.t.x.len) /\ c.t.y.g0 = Centre(c.t.p2, c.t.y.len)
@@ -239,7 +245,9 @@ SubAx == /\ c.kind = "full" /\ SubMode # "none" /\ c.a.len \in SubLens
               \E hi \in (IF SubMode = "all" THEN 1..c.a.len ELSE Edges(c.a)) :
                  /\ lo < hi
                  /\ c' = [kind |-> "sub", a |-> SubAxis(c.a, lo, hi - lo), parent |-> c.a, off |-> lo]
-SpecAxis == InitAxis /\ [][NewAxis \/ SubAx]_c
+BackToAxis == /\ c.kind = "sub"
+              /\ c' = [kind |-> "full", a |-> c.parent, parent |-> c.parent, off |-> 0]
+SpecAxis == InitAxis /\ [][NewAxis \/ SubAx \/ BackToAxis]_c
 AxMinimal == c.kind = "full" => /\ P2Minimal(c.a.len, c.a.len) /\ P2(c.a.len, c.a.len) = NextP2(c.a.len)
                                 /\ \A q \in AxisP2s(c.a.len) : P2(c.a.len, q) = q /\ P2(q, c.a.len) = q
 AxCentred == c.kind = "full" => Centred(c.a.p2, c.a.len) /\ c.a.g0 = Centre(c.a.p2, c.a.len)
